@@ -266,6 +266,11 @@ fn self_dial_scenario(w: &mut World, _ctx: &RunCtx, states: &mut Vec<u64>) -> Re
     // how node 0 comes to dial Y: configured by the user, advertised by itself (peers hand it back), or
     // only told by peers that reach it through Y
     let how = if n == 1 { w.ch.choose("how_dialled", 2) } else { w.ch.choose("how_dialled", 3) };
+    // sometimes the node is told to dial two of its own public addresses (crosswise loop-back with source mode 2)
+    if w.ch.chance("dial_second_own_address", 300) {
+        w.nodes[0].cfg.peers.push(addr_text(z));
+        w.count("c14_two_own_addresses_dialled");
+    }
     match how {
         0 => w.nodes[0].cfg.peers.push(addr_text(y)),
         1 => {
@@ -406,6 +411,6 @@ impl Scenario for C14 {
     }
 
     fn expected_probes(&self) -> Vec<&'static str> {
-        vec!["c14_mesh_with_nat", "nat_filtered", "c14_listed_under_own_identity", "c14_translated_node", "c14_node_with_7_or_more_advertised", "c14_loop_source_own_socket", "c14_loop_source_alias", "c14_loop_source_third", "c14_own_address_adopted", "c14_mesh_took_over_60s"]
+        vec!["c14_mesh_with_nat", "nat_filtered", "c14_listed_under_own_identity", "c14_translated_node", "c14_two_own_addresses_dialled", "c14_node_with_7_or_more_advertised", "c14_loop_source_own_socket", "c14_loop_source_alias", "c14_loop_source_third", "c14_own_address_adopted", "c14_mesh_took_over_60s"]
     }
 }
